@@ -2899,7 +2899,16 @@ def sf_trace(eng, node, v):
     return VSeq(v.trace)
 
 
+def sf_nonnone(eng, node, t):
+    """the single component of a concrete tuple that is not None"""
+    xs = [x for x in t.items if x is not None] if isinstance(t, VTuple) else []
+    if len(xs) != 1:
+        raise SpecError('nonnone: not exactly one component')
+    return xs[0]
+
+
 SPEC_FUNCS = {
+    'nonnone': sf_nonnone,
     'pairsof': lambda eng, node, A, B, n: VPairs(toz(n), as_arr(A).arr, as_arr(B).arr),
     'lam1': sf_lam1,
     'nbrs': _wrap(specs.nbrs), 'evar': _wrap(specs.evar), 'iofarr': lambda eng, node, A, n: VSeq(specs.iofarr(as_arr(A).arr, toz(n))),
